@@ -118,6 +118,14 @@ IMul(c) == Bound /\ Tame(x) /\ Step([n |-> "imul", c |-> c], VScale(c, x))
 IMulVec == Bound /\ Tame(x) /\ Step([n |-> "imul_vec", src |-> "y"], VMul(x, y))
 AddScalVec(c, src) == Bound /\ Tame(x) /\ Step([n |-> "add_scal_vec", c |-> c, src |-> src], VAdd(x, VScale(c, Other(src))))
 
+NVars == 3          \* every layout has three variables
+FlatIdx == {Nd!IntT(0), Nd!IntT(-1), Nd!SliceT(1, 3, Nd!NoneV), Nd!SliceT(Nd!NoneV, Nd!NoneV, 2), Nd!ArrT(<<2, 0>>)}
+Idx1 == {<<Nd!IntT(0), FALSE>>, <<Nd!IntT(-1), FALSE>>, <<Nd!SliceT(Nd!NoneV, Nd!NoneV, -1), FALSE>>, <<Nd!ArrT(<<0>>), TRUE>>}
+Idx2 == {<<Nd!TupT(<<Nd!IntT(-1), Nd!IntT(0)>>), FALSE>>, <<Nd!TupT(<<Nd!FullSlice, Nd!IntT(0)>>), FALSE>>,
+         <<Nd!TupT(<<Nd!IntT(0), Nd!FullSlice>>), FALSE>>, <<Nd!IntT(1), TRUE>>, <<Nd!IntT(-1), TRUE>>}
+AllVarIdx == Idx1 \cup Idx2
+VarIdx(v) == IF Len(L.vars[v].shape) = 1 THEN Idx1 ELSE Idx2
+
 \* named writes: whole variable (scalar broadcast or an array of the variable's shape), through __setitem__ or through
 \* the array returned by __getitem__ (which must be a view of the data)
 SetName(v, via, whole) ==
@@ -128,7 +136,7 @@ SetName(v, via, whole) ==
        IN Step([n |-> "set_name", var |-> v, via |-> via, whole |-> whole, vals |-> vals], Assign(x, pos, vals))
 \* set_var(name, c, idxs, flat): NumPy index into the variable (its shape, or flattened)
 SetVarIdx(v, ix, flat) ==
-    /\ Bound /\ Nd!Valid(ix, L.vars[v].shape, flat)
+    /\ Bound /\ <<ix, flat>> \in VarIdx(v) /\ Nd!Valid(ix, L.vars[v].shape, flat)
     /\ LET pos == Nd!Positions(ix, L.vars[v].shape, flat)
            gpos == [k \in 1..Len(pos) |-> Start(L, v) + pos[k]]
        IN /\ Len(pos) > 0
@@ -148,12 +156,6 @@ ScaleToPhys ==
     /\ hist' = Append(hist, Obs([n |-> "scale_to_phys", mode |-> StMode], x'))
     /\ UNCHANGED <<ly, kind, y>>
 
-FlatIdx == {Nd!IntT(0), Nd!IntT(-1), Nd!SliceT(1, 3, Nd!NoneV), Nd!SliceT(Nd!NoneV, Nd!NoneV, 2), Nd!ArrT(<<2, 0>>)}
-VarIdx(v) == IF Len(L.vars[v].shape) = 1
-             THEN {<<Nd!IntT(0), FALSE>>, <<Nd!IntT(-1), FALSE>>, <<Nd!SliceT(Nd!NoneV, Nd!NoneV, -1), FALSE>>, <<Nd!ArrT(<<0>>), TRUE>>}
-             ELSE {<<Nd!TupT(<<Nd!IntT(-1), Nd!IntT(0)>>), FALSE>>, <<Nd!TupT(<<Nd!FullSlice, Nd!IntT(0)>>), FALSE>>,
-                   <<Nd!TupT(<<Nd!IntT(0), Nd!FullSlice>>), FALSE>>, <<Nd!IntT(1), TRUE>>, <<Nd!IntT(-1), TRUE>>}
-
 Next == \/ \E c \in Scalars : SetValScalar(c)
         \/ \E k \in 1..2 : SetValArr(k)
         \/ \E ix \in FlatIdx : SetValIdx(ix, R(7))
@@ -163,17 +165,33 @@ Next == \/ \E c \in Scalars : SetValScalar(c)
         \/ \E c \in Scalars : IMul(c)
         \/ IMulVec
         \/ \E c \in Scalars, src \in {"y", "self"} : AddScalVec(c, src)
-        \/ \E v \in 1..Len(L.vars), via \in {"setitem", "view"}, whole \in {"scalar", "array"} : SetName(v, via, whole)
-        \/ \E v \in 1..Len(L.vars) : \E p \in VarIdx(v) : SetVarIdx(v, p[1], p[2])
+        \/ \E v \in 1..NVars, via \in {"setitem", "view"}, whole \in {"scalar", "array"} : SetName(v, via, whole)
+        \/ \E v \in 1..NVars, p \in AllVarIdx : SetVarIdx(v, p[1], p[2])
         \/ \E mode \in {"fwd", "rev"} : ScaleToNorm(mode)
         \/ ScaleToPhys
+
+\* the sub-alphabet a solver uses around a scaling (every behaviour of NextSolver is a behaviour of Next); random
+\* histories over it cross the phys/norm boundary in both directions often
+InPhys == st = "phys"
+InNorm == st # "phys"
+NextSolver == \/ \E k \in 1..2 : InPhys /\ SetValArr(k)
+              \/ InPhys /\ IAdd("y")
+              \/ InPhys /\ ISub("y")
+              \/ \E c \in {R(-2), R(3)} : InPhys /\ IMul(c)
+              \/ \E v \in 1..NVars : InPhys /\ SetName(v, "setitem", "array")
+              \/ \E mode \in {"fwd", "rev"} : ScaleToNorm(mode)
+              \/ InNorm /\ IAdd("y")
+              \/ InNorm /\ IMul(R(3))
+              \/ InNorm /\ AddScalVec(R(-2), "y")
+              \/ InNorm /\ SetName(3, "view", "scalar")
+              \/ ScaleToPhys
 
 Spec == Init /\ [][Next]_vars
 
 \* ---- properties --------------------------------------------------------------------------------------------------
 TypeOK == /\ Len(x) = N(L) /\ Len(y) = N(L)
           /\ \A i \in DOMAIN x : IsRat(x[i])
-LayoutOK(Ly) == /\ Len(Ly.a0) = N(Ly) /\ Len(Ly.a1) = N(Ly) /\ Len(Ly.rr) = N(Ly)
+LayoutOK(Ly) == /\ Len(Ly.vars) = NVars /\ Len(Ly.a0) = N(Ly) /\ Len(Ly.a1) = N(Ly) /\ Len(Ly.rr) = N(Ly)
                 /\ \A i \in 1..N(Ly) : Ly.a1[i] # Zero /\ Ly.rr[i] # Zero
 \* the named views tile the data: concatenated in layout order they ARE the data
 RECURSIVE Concat(_, _)
